@@ -92,14 +92,17 @@ Definition unhex (c : Z) : option Z :=
 (* digits of n >= 0 in base b, most significant first; "0" for zero *)
 Definition digits_be (b n : Z) : list Z :=
   if n =? 0 then [0] else rev (to_le b (S (Z.to_nat (Z.log2 n))) n).
+(* bytes.fromhex: pairs of hex digits; ASCII white space (9..13, 32) is skipped between pairs, not inside one;
+   anything else -- including non-ASCII characters -- is ValueError *)
+Definition hexws (c : Z) : bool := (c =? 32) || ((9 <=? c) && (c <=? 13)).
 Fixpoint fromhex (s : list Z) : R (list Z) :=
   match s with
   | [] => Val []
-  | [c] => match unhex c with Some _ => Exc ValueError | None => if (c =? 32) || ((9 <=? c) && (c <=? 13)) then Exc Unmodelled else Exc ValueError end
-  | c1 :: c2 :: r =>
+  | [c] => if hexws c then Val [] else Exc ValueError
+  | c1 :: ((c2 :: r) as tl) =>
       match unhex c1, unhex c2 with
       | Some h, Some l => let! t := fromhex r in Val (16 * h + l :: t)
-      | _, _ => if existsb (fun c => (c =? 32) || ((9 <=? c) && (c <=? 13))) [c1; c2] then Exc Unmodelled else Exc ValueError
+      | _, _ => if hexws c1 then fromhex tl else Exc ValueError
       end
   end.
 
@@ -308,6 +311,17 @@ Definition apply_builtin (b : builtin) (args : list val) : R val :=
   | (BMin | BMax), _ => Exc Unmodelled
   | BBool, [v] => Val (VBool (truthy v))
   | BListOf, [v] => let! l := iter_items v in Val (VList l)
+  | BIntDiv, [VInt a; VInt b] =>
+      (* int(a / b): float division then truncation; exact (= floor) when 0 <= a < 2^52 and 0 < b < 2^52 *)
+      if (0 <=? a) && (a <? 4503599627370496) && (0 <? b) && (b <? 4503599627370496) then Val (VInt (a / b)) else Exc Unmodelled
+  | BIntDiv, _ => Exc Unmodelled
+  | BChunks, [VInt k; VStr s] =>
+      (* re.findall("." * k, s): non-overlapping k-character chunks from the left, a shorter tail is dropped; '.' does not match a newline *)
+      if (k <=? 0) || memb 10 s then Exc Unmodelled
+      else Val (VList (map VStr ((fix ch (n : nat) (l : list Z) : list (list Z) :=
+                                   match n with O => [] | S n' => firstn (Z.to_nat k) l :: ch n' (skipn (Z.to_nat k) l) end)
+                                  (Nat.div (List.length s) (Z.to_nat k)) s)))
+  | BChunks, _ => Exc Unmodelled
   | BIsInt, [VInt _] => Val (VBool true)          (* type(x) == int: exactly int, not bool *)
   | BIsInt, [_] => Val (VBool false)
   | _, _ => Exc TypeError
